@@ -353,7 +353,7 @@ func run(o *opts) error {
 	rng := g.rng
 	cfg := cfgRec{o.proto, o.pool, o.ht}
 	var sent int64 // cumulative number of requests sent (TCP: compared with the hook counters)
-	discarded, notQuiet := 0, 0
+	discarded, notQuiet, blockFailed := 0, 0, 0
 	tcp := o.proto == "tcp"
 	chunk := func(n int) int {
 		if rng.Intn(3) == 0 {
@@ -438,13 +438,21 @@ func run(o *opts) error {
 				}
 				return true
 			}) {
-				return fmt.Errorf("round %d: blockers did not reach the implementation", round)
+				// the requests that were to queue behind the blockers are not sent: what happened to the blockers is
+				// judged on its own (the oracle will miss their replies if the server lost them)
+				reqs = nil
+				all = blockers
+				blockFailed++
 			}
 			t0 := time.Now()
 			if err := sendAll(reqs); err != nil {
 				return err
 			}
-			if o.ht > 0 {
+			if len(reqs) == 0 {
+				for _, b := range blockers {
+					rec.open(b.K)
+				}
+			} else if o.ht > 0 {
 				// the workers free themselves when the handle timeout of the blockers fires; the queued requests must
 				// have been on the server for much longer than their own timeout (<= 3 ms) by then
 				if time.Since(t0) > time.Duration(o.ht)*time.Millisecond/3 {
@@ -588,7 +596,7 @@ func run(o *opts) error {
 		return err
 	}
 	sum := map[string]interface{}{
-		"records": w.N, "sent": atomic.LoadInt64(&sent), "discarded_rounds": discarded, "rounds_not_quiet": notQuiet,
+		"records": w.N, "sent": atomic.LoadInt64(&sent), "discarded_rounds": discarded, "rounds_not_quiet": notQuiet, "rounds_blockers_lost": blockFailed,
 		"hook_handleConn": atomic.LoadInt64(&hookHandleConn) - baseRecv, "hook_invoked": atomic.LoadInt64(&hookInvoked) - base,
 		"hook_written": atomic.LoadInt64(&hookWritten), "maxroutine": info.maxInvoke, "handletimeout_ms": info.htMs,
 	}
